@@ -305,18 +305,24 @@ impl FsCommand {
     }
 
     /// On Linux the data of the retained file are cloned into the existing file,
-    /// which has to be opened for writing for that. Opening it changes nothing.
+    /// which has to be opened for writing for that. Whether it can be opened is only estimated
+    /// here: really opening the file for writing is not as harmless as it looks (on overlayfs
+    /// it copies the file up and detaches it from its hard links).
     fn check_can_overwrite(path: &Path) -> io::Result<()> {
         #[cfg(any(target_os = "linux", target_os = "android"))]
-        if let Err(e) = fs::OpenOptions::new().write(true).open(path.to_path_buf()) {
-            return Err(io::Error::new(
-                e.kind(),
-                format!(
-                    "Cannot deduplicate {}: cannot open it for writing: {}",
-                    path.display(),
-                    e
-                ),
-            ));
+        {
+            use nix::unistd::{access, AccessFlags};
+            if let Err(e) = access(&path.to_path_buf(), AccessFlags::W_OK) {
+                let e = io::Error::from(e);
+                return Err(io::Error::new(
+                    e.kind(),
+                    format!(
+                        "Cannot deduplicate {}: cannot open it for writing: {}",
+                        path.display(),
+                        e
+                    ),
+                ));
+            }
         }
         #[cfg(not(any(target_os = "linux", target_os = "android")))]
         let _ = path;
